@@ -18,7 +18,19 @@ MODEL_VOS = ["Base/Conv.vo", "DD/Tdd.vo"]
 PID = "C11"
 
 
+def build_variants(ctx):
+    """further builds of the harness: debug profile (debug assertions, overflow checks) of the default
+    configuration, and the pointer-based manager in the release and in the debug profile"""
+    return [
+        ("debug", vf.cargo_build(["h_tdd"], profile="debug")["h_tdd"]),
+        ("cfg-pointer", vf.cargo_build(["h_tdd"], features=["cfg-pointer"], no_default=True, target_sub="cfg-pointer")["h_tdd"]),
+        ("cfg-pointer debug", vf.cargo_build(["h_tdd"], profile="debug", features=["cfg-pointer"], no_default=True,
+                                             target_sub="cfg-pointer")["h_tdd"]),
+    ]
+
+
 def build(ctx):
+    build_variants(ctx)
     drv = vf.ocaml_build(ctx, "ExC11.v", "c11_main.ml", model_vos=MODEL_VOS)
     bins = vf.cargo_build(["h_tdd"])
     return bins["h_tdd"], drv
@@ -72,6 +84,19 @@ def run(ctx):
     ctx.samples = [{"case": h, "ops": ops[:6]} for h, ops in pick]
     if bad:
         handle_bad(ctx, binp, drv, cases, bad)
+    # the corpus and a sample of the cases on the other builds (TDD nodes are the only ternary nodes: the node
+    # stores and the debug assertions of the rules see them only here)
+    sample = [c for c in cases if c[0].startswith("corpus")] + gen_cases[:: (4 if ctx.tier == "thorough" else 12)]
+    for name, vbin in build_variants(ctx):
+        f2 = os.path.join(ctx.workdir, "cases-" + name.replace(" ", "-") + ".txt")
+        vf.write_cases(f2, sample)
+        ok2, bad2 = vf.lockstep(ctx, vbin, drv, f2, tag="-" + name.replace(" ", "-"))
+        ctx.add_stat("cases_" + name.replace(" ", "_").replace("-", "_"), ok2 + len(bad2))
+        ok += ok2
+        if bad2:
+            bad2 = [(cid, f"({name} build) {msg}") for cid, msg in bad2]
+            handle_bad(ctx, vbin, drv, sample, bad2)
+            bad = list(bad) + bad2
     lines = set()
     for h, ops in cases:
         order = "order=1" in h
@@ -84,7 +109,7 @@ def run(ctx):
     ctx.stats["cases"] = ctx.stats.get("lines", 0)
     vf.write_evidence(
         ctx, "proof",
-        rule="per variable order (x0 top / x1 top): constants via TDDFunction::f/t/u, var, not and cofactors of the 27 one-variable functions of x0 and of x1; all 27x27 pairs of one-variable functions of x0 x 8 binary connectives, all 27x27 (x0-function, x1-function) and (x1-function, x0-function) pairs x 8 connectives; ite on all 27^3 triples of one-variable functions of x0 and on sampled mixed x0/x1 triples; a seeded sample (quick 2000, thorough 100000 tuples) of two-variable operand triples (uniform tables, one-variable, constant, two-valued, and tables derived from earlier ones incl. equal operands) with not, 8 connectives, ite, cofactors and handle equality each; apply cache capacity 16 and 1024; every result evaluated on all 9 complete three-valued assignments; an evaluation = one op line, non-trivial = a connective/ite/not/cofactor line with a non-constant operand, distinct = distinct (order, line)",
+        rule="a sample of the cases (every 12th, thorough every 4th) and the corpus also on a debug-profile build and on the pointer-based manager (release and debug profile); per variable order (x0 top / x1 top): constants via TDDFunction::f/t/u, var, not and cofactors of the 27 one-variable functions of x0 and of x1; all 27x27 pairs of one-variable functions of x0 x 8 binary connectives, all 27x27 (x0-function, x1-function) and (x1-function, x0-function) pairs x 8 connectives; ite on all 27^3 triples of one-variable functions of x0 and on sampled mixed x0/x1 triples; a seeded sample (quick 2000, thorough 100000 tuples) of two-variable operand triples (uniform tables, one-variable, constant, two-valued, and tables derived from earlier ones incl. equal operands) with not, 8 connectives, ite, cofactors and handle equality each; apply cache capacity 16 and 1024; every result evaluated on all 9 complete three-valued assignments; an evaluation = one op line, non-trivial = a connective/ite/not/cofactor line with a non-constant operand, distinct = distinct (order, line)",
         checker_cmd="make -C coq Props/C11.vo (coqc 8.16.1) + Print Assumptions audit; ./check C11",
         extra_cov={"cases_ok": ok, "cases_bad": len(bad), "tier": ctx.tier},
         assumptions=["eval is only checked on complete assignments (incomplete ones are outside C11)",
